@@ -1,12 +1,22 @@
 import Avfs.Path.Spec
+import Avfs.Lemmas.Clean
 /-
   C13 — lexical path functions equal path/filepath of the emulated OS.
   Subject: Avfs.Path (transliteration of vfs_ostype_on.go / vfs.go / pathiterator.go), tied to /repo by
   `corr path` (impl built with avfs_setostype ≟ model, both OS types) and to path/filepath by the
   corr-oracle part (Lean Spec ≟ toolchain path/filepath).
-  Theorems about `clean`/`join` (clean_eq_spec, spec_clean_idem, join_eq_spec) live in Props/C13Clean.lean.
 -/
 namespace Avfs.Path
+
+/-- Clean on Linux equals the component-based reference (= path/filepath.Clean, see corr-oracle) for EVERY byte string. -/
+theorem C13_clean_eq_spec (p : Bytes) : clean .linux p = Spec.clean p := clean_eq_spec p
+
+/-- Clean is idempotent. -/
+theorem C13_clean_idem (p : Bytes) : clean .linux (clean .linux p) = clean .linux p := by
+  rw [clean_eq_spec, clean_eq_spec, spec_clean_idem]
+
+/-- Join on Linux equals the reference (non-empty elements joined by '/', cleaned), for every list of byte strings. -/
+theorem C13_join_eq_spec (es : List Bytes) : join .linux es = Spec.join es := join_eq_spec es
 
 /-- Split: `dir ++ file = path`, for every byte string, on both OS types. -/
 theorem C13_split_append (os : OS) (p : Bytes) : (split os p).1 ++ (split os p).2 = p := by
